@@ -7,7 +7,7 @@ import sys
 import time
 from multiprocessing import Pool
 
-from common import NCPU, WORK, Result, SplitMix, build, finish, seed, workdir
+from common import asan_stage, NCPU, WORK, Result, SplitMix, build, finish, seed, workdir
 from fsutil import (B3, MUTATING, STAGING, base_env, clear_traces, content_map, is_staging, read_traces, rmtree, run, set_mtime, shim_env, snapshot, write_file)
 
 PATH_POOL = ["f", "g", "d/h", "d/e/i", "with space", "it's", "new\nline", "é日", "-dash", "d/star*", "q?", "$x", "c", "c/x", "back\\slash", "h.txt"]
@@ -452,6 +452,8 @@ def c02(tier):
     n = 5000 if tier == "thorough" else 1500
     fold(r, run_pool(_c02_worker, seed(), n, "c02"))
     r.assumptions = ["contents are located by hash anywhere in the tree (the statement does not pin the path)", "the archive file is never consulted by this oracle; last_common is derived from the driver's own snapshots", "names ending in .copia-tmp are outside the domain"]
+    if tier == "thorough":
+        asan_stage(r, "C02")
     finish(r, tier)
 
 
@@ -687,6 +689,8 @@ def c06(tier):
     n = 2500 if tier == "thorough" else 450
     fold(r, run_pool(_c06_worker, seed(), n, "c06"))
     r.assumptions = ["comparison is modulo reserved staging names", "metamorphic comparison is skipped for histories in which a run aborted (file/directory clashes)", "winner-rule check of the conflict-copy NAME is skipped when that name already existed before the run (collision, see known finding under C02)"]
+    if tier == "thorough":
+        asan_stage(r, "C06")
     finish(r, tier)
 
 
@@ -897,6 +901,8 @@ def c07(tier):
     r.exhaustive = False
     r.extra["truncation_sweep"] = {"trees": ntrees, "every_offset": True}
     r.assumptions = ["file/directory clashes are kept out of these trees so that every run can complete", "the truncation sweep is complete per swept archive (every byte offset); fault kinds are sampled over trees"]
+    if tier == "thorough":
+        asan_stage(r, "C07")
     finish(r, tier)
 
 
@@ -1128,6 +1134,8 @@ def c08(tier):
     fold(r, parts)
     r.exhaustive = True
     r.assumptions = ["exhaustive refers to k for each scenario (kills land before libc calls of the copia process)", "a process kill cannot lose page-cache contents: 'flushed to stable storage' is decided as an ordering of observed fsync/rename calls, not as survival of a power cut", "directory syncs for data files are not demanded"]
+    if tier == "thorough":
+        asan_stage(r, "C08")
     finish(r, tier)
 
 
